@@ -211,3 +211,117 @@ func dropAll(s *sim.Sim) {
 		s.Drop(0)
 	}
 }
+
+// knownFindingScenario runs a scripted history that reproduces an open known
+// finding: a violation whose signature names the finding is expected.
+func knownFindingScenario(t *testing.T, res sim.CaseResult, finding string) {
+	t.Helper()
+	if res.Violation == nil {
+		t.Logf("the scripted history of known finding %s did not reproduce on this tree", finding)
+		return
+	}
+	if !strings.Contains(res.Violation.Sig, finding) {
+		report(t, res)
+	}
+	t.Logf("KNOWN-FINDING-REPRODUCED %s: %s", res.Violation.Sig, res.Violation.Msg)
+}
+
+func hasConfEntry(ents []*pb.Entry) bool {
+	for _, e := range ents {
+		if e.GetType() != pb.EntryNormal {
+			return true
+		}
+	}
+	return false
+}
+
+// Known finding raft.stale_config_campaign: voters {1,2,3}; 4 and 5 are added
+// by two simple changes while 3 lags; 3 then persists the entries carrying
+// both changes but crashes before the hard state with their commit index is
+// written (README order: entries first, then hard state); after the restart
+// it does not know that they are committed, campaigns with config {1,2,3} and
+// wins with node 1's vote, while {2,4,5} keeps committing.
+func TestReplay_C01_StaleConfigCampaign(t *testing.T) {
+	w := world(5, []uint64{1, 2, 3}, nil)
+	res := sim.RunScript(w, []string{"C01", "C02", "C04", "C06"}, nil, func(s *sim.Sim) {
+		add := func(id uint64) *pb.ConfChangeV2 {
+			return &pb.ConfChangeV2{Changes: []*pb.ConfChangeSingle{{Type: pb.ConfChangeAddNode.Enum(), NodeId: new(id)}}}
+		}
+		elect(s, 2)
+		s.Isolate(s.Nodes[3])
+		s.ProposeConf(s.Nodes[2], add(4), false)
+		s.Stabilize(12)
+		s.ProposeConf(s.Nodes[2], add(5), false)
+		s.Stabilize(12)
+		s.Heal()
+		n3 := s.Nodes[3]
+		for i := 0; i < 30 && n3.Up; i++ {
+			s.Tick(s.Nodes[2])
+			s.Service(s.Nodes[2])
+			deliverAllTo(s, 3)
+			if n3.RN.HasReady() {
+				s.TakeReady(n3)
+				if hasConfEntry(n3.Rd.Entries) {
+					s.PersistEntries(n3) // entries durable, hard state not yet
+					s.Crash(n3, false, false)
+					break
+				}
+				s.Service(n3)
+			}
+			deliverAllTo(s, 2)
+		}
+		dropAll(s)
+		_, hi := s.RestartRange(n3)
+		s.Restart(n3, hi)
+		for _, a := range []uint64{1, 3} {
+			for _, b := range []uint64{2, 4, 5} {
+				s.BlockLink(a, b)
+				s.BlockLink(b, a)
+			}
+		}
+		s.TickUntilCampaign(n3)
+		s.Stabilize(10)
+		s.Propose(n3, 8)
+		s.Propose(s.Nodes[2], 8)
+		s.Stabilize(10)
+	})
+	knownFindingScenario(t, res, "raft.stale_config_campaign")
+}
+
+// C02 regression (fixed by "fix: a candidate does not become leader before its
+// own vote is durable"): node 2 (AsyncStorageWrites, stalled append thread)
+// campaigns; its MsgVote leaves before term and self-vote are durable; 1 and 3
+// grant. Before the fix it became leader, replicated an entry to node 1,
+// crashed, restarted in term 0, won term 1 again and replicated a different
+// entry with the same index and term to node 3.
+func TestReplay_C02_AsyncLeaderTermNotDurable(t *testing.T) {
+	w := world(3, []uint64{1, 2, 3}, func(id uint64, o *sim.NodeOpts) { o.Async = id == 2 })
+	owned := []string{"C02", "C03"}
+	if os.Getenv("VERIF_SCENARIO_C03_ONLY") != "" {
+		owned = []string{"C03"} // shows the consequence: two entries with one (index, term)
+	}
+	res := sim.RunScript(w, owned, nil, func(s *sim.Sim) {
+		n := s.Nodes[2]
+		n.SlowAppend = true
+		s.TickUntilCampaign(n)
+		s.Service(n) // MsgVote released, the hard state write stays queued
+		deliverAll(s, pb.MsgVote)
+		s.Service(s.Nodes[1])
+		s.Service(s.Nodes[3])
+		deliverAll(s, pb.MsgVoteResp)
+		s.Service(n)
+		s.Propose(n, 8)
+		s.Service(n)
+		deliverAllTo(s, 1)
+		s.Service(s.Nodes[1])
+		dropAll(s)
+		s.Crash(n, false, false)
+		_, hi := s.RestartRange(n)
+		s.Restart(n, hi)
+		s.TickUntilCampaign(n)
+		s.Stabilize(10)
+		s.Propose(n, 9)
+		s.Stabilize(10)
+	})
+	report(t, res)
+}
